@@ -78,39 +78,76 @@ theorem run_quoteIdent (s : St) (h : opensQid s = true) (v : List Char) :
   rw [run_append, hs, run_qid_dbl]
   simp [run, step]
 
+/-- Without a quote character the scanner stays inside the literal. -/
+theorem run_str_noquote (v : List Char) (h : v.contains '\'' = false) : run .str v = (.str, []) := by
+  induction v with
+  | nil => rfl
+  | cons c cs ih =>
+    have hc : (c == '\'') = false := by
+      cases hcc : (c == '\'') with
+      | false => rfl
+      | true =>
+        have : c = '\'' := by simpa using hcc
+        subst this
+        simp at h
+    have hcs : cs.contains '\'' = false := by
+      cases hh : cs.contains '\'' with
+      | false => rfl
+      | true =>
+        have : '\'' ∈ cs := by simpa using hh
+        have : (c :: cs).contains '\'' = true := by simp [this]
+        rw [this] at h; cases h
+    rw [run_cons, step_str]
+    simp [hc, ih hcs]
+
 /-- One atom of a safe run: final state and events are the same for all arguments. -/
 theorem atom_safe (env : Env) (a : Args) (cur : Option (List Char)) (s s' : St) (x : Atom)
     (h : atomSafeStep env a cur s x = some s') :
-    ∃ evs, ∀ (b : Args) (cur' : Option (List Char)), run s (renderAtom env b cur' x) = (s', evs) := by
+    ∃ evs, ∀ (b : Args) (cur' : Option (List Char)), atomOK b cur' x = true →
+      run s (renderAtom env b cur' x) = (s', evs) := by
   cases x with
   | lit t =>
     simp only [atomSafeStep, Option.some.injEq] at h
-    exact ⟨(run s t.toList).2, fun _ _ => by simp [renderAtom, ← h]⟩
+    exact ⟨(run s t.toList).2, fun _ _ _ => by simp [renderAtom, ← h]⟩
   | srv n =>
     simp only [atomSafeStep, Option.some.injEq] at h
-    exact ⟨(run s ((lookup env n).getD "").toList).2, fun _ _ => by simp [renderAtom, ← h]⟩
+    exact ⟨(run s ((lookup env n).getD "").toList).2, fun _ _ _ => by simp [renderAtom, ← h]⟩
   | cli src w e =>
     cases w with
-    | raw => simp [atomSafeStep] at h
+    | raw =>
+      cases src with
+      | client => simp [atomSafeStep] at h
+      | stored => simp [atomSafeStep] at h
+      | validated =>
+        by_cases hs : (s == St.str) = true
+        · simp only [atomSafeStep, hs, if_true, Option.some.injEq] at h
+          have hs' : s = .str := by simpa using hs
+          subst hs'
+          refine ⟨[], fun b cur' hok => ?_⟩
+          have hq : ((evalExpr b cur' e).getD []).contains '\'' = false := by
+            simpa [atomOK] using hok
+          simp [renderAtom, wrap, run_str_noquote _ hq, ← h]
+        · simp [atomSafeStep, hs] at h
     | quoteLit =>
       by_cases ho : opensStr s = true
       · simp only [atomSafeStep, ho, if_true, Option.some.injEq] at h
-        exact ⟨(step s '\'').2, fun b cur' => by simp [renderAtom, wrap, run_quoteLit s ho, ← h]⟩
+        exact ⟨(step s '\'').2, fun b cur' _ => by simp [renderAtom, wrap, run_quoteLit s ho, ← h]⟩
       · simp [atomSafeStep, ho] at h
     | quoteIdent =>
       by_cases ho : opensQid s = true
       · simp only [atomSafeStep, ho, if_true, Option.some.injEq] at h
-        exact ⟨(step s '"').2, fun b cur' => by simp [renderAtom, wrap, run_quoteIdent s ho, ← h]⟩
+        exact ⟨(step s '"').2, fun b cur' _ => by simp [renderAtom, wrap, run_quoteIdent s ho, ← h]⟩
       · simp [atomSafeStep, ho] at h
 
 theorem atoms_safe (env : Env) (a : Args) (cur : Option (List Char)) (xs : List Atom) :
     ∀ (s s' : St), atomsSafeRun env a cur s xs = some s' →
-    ∃ evs, ∀ (b : Args) (cur' : Option (List Char)), run s (renderAtoms env b cur' xs) = (s', evs) := by
+    ∃ evs, ∀ (b : Args) (cur' : Option (List Char)), xs.all (atomOK b cur') = true →
+      run s (renderAtoms env b cur' xs) = (s', evs) := by
   induction xs with
   | nil =>
     intro s s' h
     simp only [atomsSafeRun, Option.some.injEq] at h
-    exact ⟨[], fun _ _ => by simp [renderAtoms, run, h]⟩
+    exact ⟨[], fun _ _ _ => by simp [renderAtoms, run, h]⟩
   | cons x xs ih =>
     intro s s' h
     simp only [atomsSafeRun] at h
@@ -120,20 +157,23 @@ theorem atoms_safe (env : Env) (a : Args) (cur : Option (List Char)) (xs : List 
       simp only [hx] at h
       obtain ⟨e1, h1⟩ := atom_safe env a cur s s1 x hx
       obtain ⟨e2, h2⟩ := ih s1 s' h
-      refine ⟨e1 ++ e2, fun b cur' => ?_⟩
+      refine ⟨e1 ++ e2, fun b cur' hok => ?_⟩
+      have hok' : atomOK b cur' x = true ∧ xs.all (atomOK b cur') = true := by
+        simpa [List.all_cons] using hok
       simp only [renderAtoms]
-      rw [run_append, h1 b cur', h2 b cur']
+      rw [run_append, h1 b cur' hok'.1, h2 b cur' hok'.2]
 
 /-- A joined list in a safe run: any list of the same length gives the same state and events. -/
 theorem list_safe (env : Env) (a : Args) (sep : List Char) (elem : List Atom) (xs : List String) :
     ∀ (s s' : St), listSafeRun env a sep elem s xs = some s' →
     ∃ evs, ∀ (b : Args) (ys : List String), ys.length = xs.length →
+      (ys.all fun y => elem.all (atomOK b (some y.toList))) = true →
       run s (renderList env b sep elem ys) = (s', evs) := by
   induction xs with
   | nil =>
     intro s s' h
     simp only [listSafeRun, Option.some.injEq] at h
-    refine ⟨[], fun b ys hl => ?_⟩
+    refine ⟨[], fun b ys hl _ => ?_⟩
     have : ys = [] := by simpa using hl
     subst this
     simp [renderList, run, h]
@@ -143,9 +183,11 @@ theorem list_safe (env : Env) (a : Args) (sep : List Char) (elem : List Atom) (x
     | nil =>
       simp only [listSafeRun] at h
       obtain ⟨e1, h1⟩ := atoms_safe env a (some x.toList) elem s s' h
-      refine ⟨e1, fun b ys hl => ?_⟩
-      match ys, hl with
-      | [y], _ => simp [renderList, h1 b (some y.toList)]
+      refine ⟨e1, fun b ys hl hok => ?_⟩
+      match ys, hl, hok with
+      | [y], _, hok =>
+        have hy : elem.all (atomOK b (some y.toList)) = true := by simpa using hok
+        simp [renderList, h1 b (some y.toList) hy]
     | cons y r' =>
       simp only [listSafeRun] at h
       cases hx : atomsSafeRun env a (some x.toList) s elem with
@@ -154,40 +196,43 @@ theorem list_safe (env : Env) (a : Args) (sep : List Char) (elem : List Atom) (x
         simp only [hx] at h
         obtain ⟨e1, h1⟩ := atoms_safe env a (some x.toList) elem s s1 hx
         obtain ⟨e2, h2⟩ := ih (run s1 sep).1 s' h
-        refine ⟨e1 ++ ((run s1 sep).2 ++ e2), fun b ys hl => ?_⟩
-        match ys, hl with
-        | y1 :: y2 :: yr, hl =>
+        refine ⟨e1 ++ ((run s1 sep).2 ++ e2), fun b ys hl hok => ?_⟩
+        match ys, hl, hok with
+        | y1 :: y2 :: yr, hl, hok =>
           have hl' : (y2 :: yr).length = (y :: r').length := by simpa using hl
+          have hok' : elem.all (atomOK b (some y1.toList)) = true ∧
+              ((y2 :: yr).all fun y => elem.all (atomOK b (some y.toList))) = true := by
+            rw [List.all_cons] at hok
+            simpa using hok
           simp only [renderList, List.append_assoc]
-          rw [run_append, h1 b (some y1.toList), run_append, h2 b (y2 :: yr) hl']
+          rw [run_append, h1 b (some y1.toList) hok'.1, run_append, h2 b (y2 :: yr) hl' hok'.2]
+
+/-- Same list length for the list a piece joins (trivial for atoms). -/
+def pieceLen (a b : Args) : Piece → Prop
+  | .atom _ => True
+  | .list _ name _ _ => ((lookup b.lists name).getD []).length = ((lookup a.lists name).getD []).length
 
 theorem piece_safe (env : Env) (a : Args) (s s' : St) (p : Piece)
     (h : pieceSafeStep env a s p = some s') :
-    ∃ evs, ∀ (b : Args),
-      (match p with
-        | .atom _ => True
-        | .list _ name _ _ => ((lookup b.lists name).getD []).length = ((lookup a.lists name).getD []).length) →
+    ∃ evs, ∀ (b : Args), pieceLen a b p → pieceOK b p = true →
       run s (renderPiece env b p) = (s', evs) := by
   cases p with
   | atom x =>
     obtain ⟨e, he⟩ := atom_safe env a none s s' x h
-    exact ⟨e, fun b _ => by simpa [renderPiece] using he b none⟩
+    exact ⟨e, fun b _ hok => by simpa [renderPiece] using he b none (by simpa [pieceOK] using hok)⟩
   | list src name sep elem =>
     obtain ⟨e, he⟩ := list_safe env a sep.toList elem _ s s' h
-    exact ⟨e, fun b hl => by simpa [renderPiece] using he b _ hl⟩
+    exact ⟨e, fun b hl hok => by simpa [renderPiece] using he b _ hl (by simpa [pieceOK] using hok)⟩
 
 theorem pieces_safe (env : Env) (a : Args) (ps : List Piece) :
     ∀ (s s' : St), piecesSafeRun env a s ps = some s' →
-    ∃ evs, ∀ (b : Args),
-      (∀ p ∈ ps, match p with
-        | .atom _ => True
-        | .list _ name _ _ => ((lookup b.lists name).getD []).length = ((lookup a.lists name).getD []).length) →
+    ∃ evs, ∀ (b : Args), (∀ p ∈ ps, pieceLen a b p) → ps.all (pieceOK b) = true →
       run s (renderPieces env b ps) = (s', evs) := by
   induction ps with
   | nil =>
     intro s s' h
     simp only [piecesSafeRun, Option.some.injEq] at h
-    exact ⟨[], fun _ _ => by simp [renderPieces, run, h]⟩
+    exact ⟨[], fun _ _ _ => by simp [renderPieces, run, h]⟩
   | cons p ps ih =>
     intro s s' h
     simp only [piecesSafeRun] at h
@@ -197,19 +242,20 @@ theorem pieces_safe (env : Env) (a : Args) (ps : List Piece) :
       simp only [hp] at h
       obtain ⟨e1, h1⟩ := piece_safe env a s s1 p hp
       obtain ⟨e2, h2⟩ := ih s1 s' h
-      refine ⟨e1 ++ e2, fun b hb => ?_⟩
+      refine ⟨e1 ++ e2, fun b hb hok => ?_⟩
+      have hok' : pieceOK b p = true ∧ ps.all (pieceOK b) = true := by
+        simpa [List.all_cons] using hok
       simp only [renderPieces]
-      rw [run_append, h1 b (hb p (by simp)), h2 b (fun q hq => hb q (by simp [hq]))]
+      rw [run_append, h1 b (hb p (by simp)) hok'.1, h2 b (fun q hq => hb q (by simp [hq])) hok'.2]
 
 theorem sameLens_spec (a b : Args) (s : Site) (h : sameLens a b s = true) :
-    ∀ p ∈ s.pieces, match p with
-      | .atom _ => True
-      | .list _ name _ _ => ((lookup b.lists name).getD []).length = ((lookup a.lists name).getD []).length := by
+    ∀ p ∈ s.pieces, pieceLen a b p := by
   intro p hp
   have := (List.all_eq_true.mp h) p hp
   cases p with
   | atom _ => trivial
   | list src name sep elem =>
+    show ((lookup b.lists name).getD []).length = ((lookup a.lists name).getD []).length
     have h2 : ((lookup a.lists name).getD []).length = ((lookup b.lists name).getD []).length := by
       simpa using this
     exact h2.symm
